@@ -65,7 +65,7 @@ PROPS = {
     },
     'C12': {
         'level': 'exploration',
-        'strata': [('reindex-histories', 'reindex', 1.0)],
+        'strata': [('reindex-histories', 'reindex', 0.9), ('small-reindex-systematic', 'reindex_sys', 0.1)],
         'quick': 16000,
         'thorough': 300000,
     },
@@ -91,6 +91,7 @@ SYSTEMATIC = {
     'C06': {'single-fault-lattice': 422400},
     'C09': {'operation-pairs-systematic': 169 * 169},
     'C10': {'small-spans-systematic': 14040},
+    'C12': {'small-reindex-systematic': 20160},
 }
 
 COMPONENTS = {
